@@ -563,6 +563,33 @@ def fixtures(max_bytes: int = 6000) -> list[dict]:
 _GARBAGE = ["\x00", "\xff", "é", " ", "}{", '"', "'", "${", "]", "[", "-8<-", "/*", "\t", "\r"]
 
 
+def add_inheritance(rng, text: str) -> str:
+    """Give container tasks attributes their children inherit (priority, allocate, start): the attribute-inheritance
+    machinery is process-global state in the engine, so histories must contain projects that depend on it."""
+    import re as _re
+
+    lines = text.split("\n")
+    res = _re.findall(r"^\s*resource (\w+) ", text, _re.M)
+    m = _re.search(r"^project \S+ \"[^\"]*\" (\d{4})-(\d{2})-(\d{2})", text, _re.M)
+    out = []
+    for i, ln in enumerate(lines):
+        out.append(ln)
+        st = ln.strip()
+        nxt = lines[i + 1].strip() if i + 1 < len(lines) else ""
+        if st.startswith("task ") and st.endswith("{") and (nxt.startswith("task ") or nxt.startswith("start ") or nxt.startswith("end ")) and rng.random() < 0.7:
+            ind = ln[: len(ln) - len(ln.lstrip())] + "  "
+            out.append(f"{ind}priority {rng.randrange(1, 10) * 100}")
+            if res and rng.random() < 0.5:
+                out.append(f"{ind}allocate {_pick(rng, res)}")
+            if m and not nxt.startswith("start ") and rng.random() < 0.3:
+                try:
+                    d0 = date(int(m.group(1)), int(m.group(2)), int(m.group(3))) + timedelta(days=rng.randrange(0, 5))
+                    out.append(f"{ind}start {d0.isoformat()}")
+                except ValueError:
+                    pass
+    return "\n".join(out)
+
+
 def add_macros(rng, text: str) -> str:
     """Rewrite a generated project so that it defines and uses macros: a one-line allocation macro substituted
     for some `allocate r` lines, and a multi-line task macro with arguments called one to three times at top level.
